@@ -250,9 +250,75 @@ func AmbiguousUPCA() []string {
 	return ambNums
 }
 
+// reuseOp: ONE reader instance of a goroutine reads a symbol under a decode hint and then another
+// symbol without hints; the second answer must be what a fresh instance gives (instances are
+// reusable, and a hint is an argument of the call it is passed to).
+func reuseOp(r *fw.Rand) Op {
+	type spec struct {
+		name    string
+		mk      func() gozxing.Reader
+		wr      func() gozxing.Writer
+		format  gozxing.BarcodeFormat
+		c1, c2  string
+		format2 gozxing.BarcodeFormat
+		wr2     func() gozxing.Writer
+		h1      map[gozxing.DecodeHintType]interface{}
+		height  int
+	}
+	d := func(n int) string { return digits(r, n) }
+	c39 := from(r, "ABCDEFGHIJKLMNOPQRSTUVWXYZ0123456789", 3+r.Intn(8))
+	specs := []spec{
+		{name: "itf", mk: oned.NewITFReader, wr: oned.NewITFWriter, format: gozxing.BarcodeFormat_ITF, c1: d(20), c2: d([]int{6, 8, 10, 12, 14}[r.Intn(5)]),
+			h1: map[gozxing.DecodeHintType]interface{}{gozxing.DecodeHintType_ALLOWED_LENGTHS: []int{20}}, height: 20},
+		{name: "codabar", mk: oned.NewCodaBarReader, wr: oned.NewCodaBarWriter, format: gozxing.BarcodeFormat_CODABAR, c1: "A" + d(5) + "B", c2: "C" + d(6) + "D",
+			h1: map[gozxing.DecodeHintType]interface{}{gozxing.DecodeHintType_RETURN_CODABAR_START_END: true}, height: 20},
+		{name: "code39", mk: oned.NewCode39Reader, wr: oned.NewCode39Writer, format: gozxing.BarcodeFormat_CODE_39, c1: c39 + string(onedref.Code39Mod43(c39)), c2: from(r, "ABCDEFGHIJKLMNOPQRSTUVWXYZ0123456789-. ", 2+r.Intn(8)),
+			h1: map[gozxing.DecodeHintType]interface{}{gozxing.DecodeHintType_ASSUME_CODE_39_CHECK_DIGIT: true}, height: 20},
+		{name: "code128", mk: oned.NewCode128Reader, wr: oned.NewCode128Writer, format: gozxing.BarcodeFormat_CODE_128, c1: "\u00f101" + d(14), c2: from(r, "abcXYZ0123456789 -", 3+r.Intn(10)),
+			h1: map[gozxing.DecodeHintType]interface{}{gozxing.DecodeHintType_ASSUME_GS1: true}, height: 20},
+		{name: "upcean", mk: func() gozxing.Reader { return oned.NewMultiFormatUPCEANReader(nil) }, wr: oned.NewEAN8Writer, format: gozxing.BarcodeFormat_EAN_8, c1: d(7), c2: d(12),
+			wr2: oned.NewEAN13Writer, format2: gozxing.BarcodeFormat_EAN_13,
+			h1: map[gozxing.DecodeHintType]interface{}{gozxing.DecodeHintType_TRY_HARDER: true}, height: 20},
+		{name: "qr", mk: func() gozxing.Reader { return qrcode.NewQRCodeReader() }, wr: func() gozxing.Writer { return qrcode.NewQRCodeWriter() }, format: gozxing.BarcodeFormat_QR_CODE, c1: "first " + d(8), c2: "second h\u00e9llo " + d(5),
+			h1: map[gozxing.DecodeHintType]interface{}{gozxing.DecodeHintType_CHARACTER_SET: "Shift_JIS", gozxing.DecodeHintType_PURE_BARCODE: true}, height: 0},
+		{name: "dm", mk: func() gozxing.Reader { return datamatrix.NewDataMatrixReader() }, wr: func() gozxing.Writer { return datamatrix.NewDataMatrixWriter() }, format: gozxing.BarcodeFormat_DATA_MATRIX, c1: "first " + d(8), c2: "second " + d(20),
+			h1: map[gozxing.DecodeHintType]interface{}{gozxing.DecodeHintType_PURE_BARCODE: true}, height: 0},
+	}
+	sp := specs[r.Intn(len(specs))]
+	if sp.wr2 == nil {
+		sp.wr2, sp.format2 = sp.wr, sp.format
+	}
+	return Op{"reuse/" + sp.name, func() string {
+		m1, e1 := sp.wr().Encode(sp.c1, sp.format, 0, sp.height, nil)
+		m2, e2 := sp.wr2().Encode(sp.c2, sp.format2, 0, sp.height, nil)
+		if e1 != nil || e2 != nil {
+			return fmt.Sprintf("reuse/%s: writer errors %v %v", sp.name, e1, e2)
+		}
+		if sp.height == 0 { // 2-D: a few pixels per module and a frame for the detector path
+			m1, _ = sp.wr().Encode(sp.c1, sp.format, 3*m1.GetWidth(), 3*m1.GetHeight(), nil)
+			m2, _ = sp.wr2().Encode(sp.c2, sp.format2, 3*m2.GetWidth()+24, 3*m2.GetHeight()+24, nil)
+		}
+		b1, _ := gozxing.NewBinaryBitmapFromImage(m1)
+		b2, _ := gozxing.NewBinaryBitmapFromImage(m2)
+		rd := sp.mk()
+		r1 := canon(rd.Decode(b1, sp.h1))
+		r2 := canon(rd.Decode(b2, nil))
+		b2f, _ := gozxing.NewBinaryBitmapFromImage(m2)
+		fresh := canon(sp.mk().Decode(b2f, nil))
+		if r2 != fresh {
+			return fmt.Sprintf("APRIORI-MISMATCH reuse/%s: after a read under %v the same reader instance answers %s for the next symbol, a fresh instance %s", sp.name, sp.h1, clip(r2), clip(fresh))
+		}
+		return fmt.Sprintf("reuse/%s %s | %s", sp.name, r1, r2)
+	}}
+}
+
 func BuildOps(r *fw.Rand, n int) []Op {
 	ops := make([]Op, 0, n)
 	for len(ops) < n {
+		if r.Intn(10) == 0 {
+			ops = append(ops, reuseOp(r))
+			continue
+		}
 		switch k := r.Intn(21); {
 		case k < 7: // 1-D write + read
 			w := oneD[r.Intn(len(oneD))]
